@@ -1002,13 +1002,15 @@ pub fn do_expansion(sh: &mut Shell, tokens: &mut types::Tokens) {
         return;
     }
 
+    // braces are expanded first, on what was written: values of variables
+    // and outputs of commands are never brace-expanded
     expand_alias(sh, tokens);
+    expand_brace(tokens);
+    expand_brace_range(tokens);
     expand_home(tokens);
     expand_env(sh, tokens);
-    expand_brace(tokens);
     expand_glob(tokens);
     do_command_substitution(sh, tokens);
-    expand_brace_range(tokens);
 }
 
 pub fn trim_multiline_prompts(line: &str) -> String {
